@@ -87,7 +87,11 @@ template<typename X, typename Y, bool tMulti> struct KUMap {
 		std::unordered_multimap<X, Y, typename HashOf<X>::type, std::equal_to<X>, Al>, std::unordered_map<X, Y, typename HashOf<X>::type, std::equal_to<X>, Al>>::type;
 	static const Cat cat = catHash; static const bool multi = tMulti, isMap = true;
 	static std::string name() { return std::string(tMulti ? "unordered_multimap<" : "unordered_map<") + KList<X>::tn() + "," + KList<Y>::tn() + ">"; }
-	template<class C> static const auto& alloc(const C& c) { return c._M_h._M_node_allocator(); }
+	// _Hashtable derives privately from _Hashtable_alloc: a C-style cast reaches the base
+	template<class C> static const auto& alloc(const C& c) {
+		typedef typename std::remove_cv<typename std::remove_reference<decltype(c._M_h)>::type>::type HT;
+		return ((const typename HT::__hashtable_alloc&)c._M_h)._M_node_allocator();
+	}
 };
 template<typename X, bool tMulti> struct KUSet {
 	typedef X Value; typedef X Key; typedef X Mapped;
@@ -95,7 +99,11 @@ template<typename X, bool tMulti> struct KUSet {
 		std::unordered_multiset<X, typename HashOf<X>::type, std::equal_to<X>, Al>, std::unordered_set<X, typename HashOf<X>::type, std::equal_to<X>, Al>>::type;
 	static const Cat cat = catHash; static const bool multi = tMulti, isMap = false;
 	static std::string name() { return std::string(tMulti ? "unordered_multiset<" : "unordered_set<") + KList<X>::tn() + ">"; }
-	template<class C> static const auto& alloc(const C& c) { return c._M_h._M_node_allocator(); }
+	// _Hashtable derives privately from _Hashtable_alloc: a C-style cast reaches the base
+	template<class C> static const auto& alloc(const C& c) {
+		typedef typename std::remove_cv<typename std::remove_reference<decltype(c._M_h)>::type>::type HT;
+		return ((const typename HT::__hashtable_alloc&)c._M_h)._M_node_allocator();
+	}
 };
 
 // ------------------------------------------------------------------------------------------------ the random histories
@@ -556,12 +564,20 @@ struct World {
 			else if (r == 1) { size_t from = (size_t)rng.below(sj); two([&](auto& x, auto& y) { auto it = y.before_begin(); std::advance(it, (long)from); x.splice_after(x.before_begin(), y, it); }); what = "splice_after_one"; }
 			else { two([&](auto& x, auto& y) { x.sort(); y.sort(); x.merge(y); }); what = "merge"; }
 		} else {
-			if (r == 0 || sj == 0) { two([&](auto& x, auto& y) { x.merge(y); }); what = "merge"; }
-			else {
-				// node handle: extract from j, insert into i (an insertion that fails destroys the node through the handle's allocator copy)
-				uint32_t k = (uint32_t)rng.below(40); Key key = mkKey(k);
+			// libstdc++ 12.2: re-inserting a node handle (`insert(node_type&&)`, and `merge` of the unordered containers, which
+			// goes through node handles) sets `__nh._M_ptr = nullptr` without releasing the handle's allocator copy, so that copy
+			// is never destroyed.  With a stateful allocator this leaks one owner of the pool per node - a defect of the
+			// environment, not of momo - so those calls are not generated; extraction, dropped handles and rejected handles are.
+			uint32_t k = (uint32_t)rng.below(40); Key key = mkKey(k);
+			if (K::cat == catTree && (r == 0 || sj == 0)) { two([&](auto& x, auto& y) { x.merge(y); }); what = "merge"; }
+			else if (r == 1 || K::multi || pc[i]->count(key) == 0) {
+				// node handle extracted and dropped: the node is destroyed through the handle's copy of the allocator
+				two([&](auto&, auto& y) { auto nh = y.extract(key); (void)nh; });
+				what = "node_handle_dropped";
+			} else {
+				// node handle extracted from j and offered to i, which already has the key: the handle comes back and dies
 				two([&](auto& x, auto& y) { auto nh = y.extract(key); if (!nh.empty()) x.insert(std::move(nh)); });
-				what = "node_handle";
+				what = "node_handle_rejected";
 			}
 		}
 		c.stats.count(std::string("op.") + what);
